@@ -121,6 +121,14 @@ def run_seq(seq, alive):
                 obs.unschedule_all()
                 model.clear()
                 extra.clear()
+            elif op[0] == "stop":
+                # stop() = the stop flag + unschedule_all(), on EVERY call (also the second one, also on an observer that never ran)
+                obs.stop()
+                if alive:
+                    obs.join(3)
+                alive = False
+                model.clear()
+                extra.clear()
             # ---- compare with the reference map after every call
             ems = obs.emitters
             got_keys = sorted((e.watch.key[0], e.watch.key[2] is not None) for e in ems)
@@ -297,6 +305,15 @@ def main():
         pr = run_seq(seq, True)
         if pr:
             bat.fail("C13.registry-running", pr[0], {"seq": [list(o) for o in seq], "alive": True, "problems": pr[:3]}, "BaseObserver")
+    # "... and stop calls": stop() more than once, with watches scheduled in between, on an observer that ran or never ran
+    S = ("stop",)
+    sch = lambda p, h: ("schedule", p, 0, h, None)
+    for seq in ([sch(0, 0), S, sch(0, 1), S], [S, sch(0, 0), S], [sch(0, 0), sch(1, 1), S, S, sch(1, 0), ("add", 0, 0, 1), S], [sch(0, 0), S, sch(0, 0), ("unschedule", 0, 0), sch(1, 1), S]):
+        for alive in (False, True):
+            bat.case(("stops", str(seq), alive))
+            pr = run_seq([tuple(o) for o in seq], alive)
+            if pr:
+                bat.fail("C13.registry-after-stop", pr[0], {"seq": [list(o) for o in seq], "alive": alive, "problems": pr[:3]}, "EventDispatcher.stop")
     for k in (1, 2, 3):
         bat.case(("start-failure", k))
         pr = start_failure(k)
